@@ -324,4 +324,48 @@ MUTANTS = [
     dict(id="c17-nested-ignored", prop="C17", expect="R17.1|position|PrimaryExpr::Nested.0", file="crates/wac-resolver/src/visitor.rs",
          old="""            PrimaryExpr::Nested(e) => self.expr(this, &e.inner),""",
          new="""            PrimaryExpr::Nested(_) => Ok(true),"""),
+
+    # ---------------- C01
+    dict(id="c01-list-index-captured-early", prop="C01", expect="R01.1|encoding::TypeEncoder::list|type_count", file="crates/wac-graph/src/encoding.rs",
+         old="""        let ty = self.value_type(state, ty);
+        let index = state.current.encodable.type_count();
+        state.current.encodable.ty().defined_type().list(ty);
+        index""",
+         new="""        let index = state.current.encodable.type_count();
+        let ty = self.value_type(state, ty);
+        state.current.encodable.ty().defined_type().list(ty);
+        index"""),
+    dict(id="c01-import-deps-wrong-counter", prop="C01", expect="R01.1|encoding::TypeEncoder::import_deps|type_count", file="crates/wac-graph/src/encoding.rs",
+         old="""        let import_index = state.current.encodable.instance_count();
+
+        state
+            .current
+            .encodable
+            .import_type(iid, ComponentTypeRef::Instance(index));""",
+         new="""        let import_index = state.current.encodable.type_count();
+
+        state
+            .current
+            .encodable
+            .import_type(iid, ComponentTypeRef::Instance(index));"""),
+    dict(id="c01-component-early-return-without-pop", prop="C01", expect="R01.2|balance|encoding::TypeEncoder::component", file="crates/wac-graph/src/encoding.rs",
+         old="""        for (name, kind) in &world.exports {
+            self.export(state, name, *kind);
+        }
+
+        match state.pop() {""",
+         new="""        for (name, kind) in &world.exports {
+            self.export(state, name, *kind);
+        }
+
+        if world.imports.is_empty() && world.exports.is_empty() {
+            return state.current.encodable.type_count();
+        }
+
+        match state.pop() {"""),
+    dict(id="c01-exports-before-nodes", prop="C01", expect="R01.3|order|", file=G,
+         old="""        // First populate the state with both implicit instantiation arguments and explicit imports
+        self.encode_imports(&mut state, import_nodes)?;
+""",
+         new="""""" ),
 ]
